@@ -132,6 +132,16 @@ pub fn c09(c: &mut Ctx, b: &Budget) {
             for a in signed.assertions_with_predicate(known_values::SIGNED) { t = t.add_assertion_envelope(a).unwrap(); }
             for &j in &chosen { let got = guarded(|| t.has_signature_from(&sg[j].pk)); c.check("other-subject-rejected", matches!(got, Ok(Ok(false))), "other-subject-accepted", || format!("{:?}", got.map(|r| r.map_err(|e| e.to_string())))); }
         }
+        // one signer contributing two distinct 'signed' assertions still counts once
+        if let Some(&j0) = chosen.first() {
+            let twice = signed.add_signature_opt(&sg[j0].sk, sg[j0].opts.clone(), None).add_signature_opt(&sg[j0].sk, sg[j0].opts.clone(), Some(SignatureMetadata::new().with_assertion(known_values::NOTE, "again")));
+            let absent: Vec<usize> = (0..sg.len()).filter(|j| !chosen.contains(j)).collect();
+            if let Some(&ja) = absent.first() {
+                let got = guarded(|| twice.has_signatures_from_threshold(&[&sg[j0].pk as &dyn bc_envelope::Verifier, &sg[ja].pk as &dyn bc_envelope::Verifier], Some(2)));
+                c.check("threshold-counts-signers", matches!(got, Ok(Ok(false))), "threshold-counts-signatures", || format!("two signatures of one signer satisfied a threshold of 2 over [signer, non-signer]: {:?}", got.map(|r| r.map_err(|e| e.to_string()))));
+                c.count("branch:double-signature");
+            }
+        }
         // threshold
         let keys: Vec<&dyn bc_envelope::Verifier> = sg.iter().map(|s| &s.pk as &dyn bc_envelope::Verifier).collect();
         let valid = chosen.len();
@@ -162,6 +172,17 @@ pub fn c09(c: &mut Ctx, b: &Budget) {
                 c.check("metadata-returned", note == "genuine", "metadata-returned", || shape(&m));
             }
             other => c.check("metadata-returned", false, "metadata-returned", || format!("{:?}", other.map(|r| r.map(|_| ()).map_err(|e| e.to_string())))),
+        }
+        // a signature-with-metadata moved onto another document must not verify there
+        let other_doc = base_envelope(c, 1);
+        if other_doc.subject().digest() != e.subject().digest() {
+            if let Ok(so) = signed.object_for_predicate(known_values::SIGNED) {
+                let moved = other_doc.add_assertion(known_values::SIGNED, so);
+                let got = guarded(|| moved.has_signature_from(&a.pk));
+                c.check("metadata-signature-bound-to-subject", matches!(got, Ok(Ok(false))), "transplanted-signature-accepted", || format!("{:?} on {}", got.map(|r| r.map_err(|e| e.to_string())), shape(&moved)));
+                let got = guarded(|| moved.verify_signature_from_returning_metadata(&a.pk));
+                c.check("metadata-signature-bound-to-subject", !matches!(got, Ok(Ok(_))), "transplanted-signature-accepted", || "metadata returned for another subject".into());
+            }
         }
         let got = guarded(|| signed.has_signature_from(&bkey.pk));
         c.check("metadata-other-key-rejected", matches!(got, Ok(Ok(false))), "metadata-other-key", || format!("{:?}", got.map(|r| r.map_err(|e| e.to_string()))));
@@ -307,8 +328,11 @@ pub fn c10(c: &mut Ctx, b: &Budget) {
         let e3 = e.encrypt_subject(&ck).unwrap().add_assertion_salted(known_values::HAS_RECIPIENT, sealed, true);
         let got = guarded(|| e3.decrypt_subject_to_recipient(&sk3));
         c.check("salted-recipient-opens", matches!(&got, Ok(Ok(d)) if d.subject().is_identical_to(&e.subject())), "salted-recipient", || format!("{:?}", got.map(|r| r.map(|_| ()).map_err(|e| e.to_string()))));
-        // wrap-and-encrypt form
+        // wrap-and-encrypt form (also for an original that is itself a wrapped envelope)
         let (sk, pk) = &keys[0];
+        for orig in [e.wrap_envelope(), e.wrap_envelope().wrap_envelope()] {
+            if let Ok(w) = guarded(|| orig.encrypt_to_recipient(pk)) { let got = guarded(|| w.decrypt_to_recipient(sk)); c.check("encrypt-to-recipient-roundtrip", matches!(&got, Ok(Ok(d)) if d.is_identical_to(&orig) && d.digest() == orig.digest()), "encrypt-to-recipient-roundtrip", || format!("wrapped original {} came back as {:?}", shape(&orig), got.map(|r| r.map(|d| shape(&d)).map_err(|e| e.to_string())))); }
+        }
         let w = guarded(|| e.encrypt_to_recipient(pk));
         if let Ok(w) = w { let got = guarded(|| w.decrypt_to_recipient(sk)); c.check("encrypt-to-recipient-roundtrip", matches!(&got, Ok(Ok(d)) if d.is_identical_to(&e)), "encrypt-to-recipient-roundtrip", || shape(&e));
             let got = guarded(|| w.decrypt_to_recipient(&outsiders[0].0)); c.check("outsider-fails", matches!(got, Ok(Err(_))), "outsider-opens", || "whole form".into()); }
@@ -338,7 +362,7 @@ fn subsets<T: Clone>(xs: &[T]) -> Vec<Vec<T>> {
 pub fn c11(c: &mut Ctx, b: &Budget) {
     let policies: Vec<(usize, Vec<(usize, usize)>)> = if b.thorough {
         vec![(1, vec![(1, 1)]), (1, vec![(2, 3)]), (1, vec![(3, 4)]), (2, vec![(1, 2), (2, 3)]), (2, vec![(2, 3), (2, 3), (1, 1)]), (1, vec![(2, 2), (3, 4)]), (3, vec![(1, 1), (2, 2), (2, 3)]), (2, vec![(2, 4), (3, 4), (1, 2)]), (2, vec![(2, 3), (3, 5)])]
-    } else { vec![(1, vec![(1, 1)]), (1, vec![(2, 3)]), (2, vec![(1, 2), (2, 3)]), (2, vec![(2, 3), (2, 3), (1, 1)]), (1, vec![(2, 2), (3, 4)])] };
+    } else { vec![(1, vec![(1, 1)]), (1, vec![(2, 3)]), (2, vec![(1, 2), (2, 3)]), (2, vec![(2, 3), (2, 3), (1, 1)]), (1, vec![(2, 2), (3, 4)]), (2, vec![(3, 4), (2, 3)])] };
     for (gt, groups) in &policies {
         c.begin("sskr");
         let e = base_envelope(c, 2).wrap_envelope();
@@ -377,6 +401,19 @@ pub fn c11(c: &mut Ctx, b: &Budget) {
             for s in flat2.iter().take(2) { mixed.push(s); }
             let got = guarded(|| Envelope::sskr_join(&mixed));
             c.check("mixed-splits", matches!(&got, Ok(Ok(j)) if j.is_identical_to(&e)) || matches!(&got, Ok(Err(_))), "mixed-splits-wrong-envelope", || "joined to a different envelope".into());
+            // a quorum of split 1 interleaved with shares of split 2 (first envelope from split 1): must still join to e
+            let quorum: Vec<&Envelope> = { let mut q: Vec<&Envelope> = vec![]; let mut groups_ok = 0; for (g, (t, _)) in groups.iter().enumerate() { if groups_ok >= *gt { break; } for x in flat.iter().filter(|x| x.0 == g).take(*t) { q.push(&x.2); } groups_ok += 1; } q };
+            if quorum.len() >= 2 {
+                let mut inter: Vec<&Envelope> = vec![];
+                for (k, q) in quorum.iter().enumerate() { inter.push(q); if let Some(f) = flat2.get(k) { inter.push(f); } }
+                let got = guarded(|| Envelope::sskr_join(&inter));
+                c.check("interleaved-splits-join", matches!(&got, Ok(Ok(j)) if j.is_identical_to(&e)), "interleaved-splits", || format!("a quorum of one split interleaved with another split's shares: {:?}", got.map(|r| r.map(|j| shape(&j)).map_err(|e| e.to_string()))));
+                c.count("branch:interleaved-splits");
+                // every ordering of a tight quorum joins (the first share may come from any group)
+                let mut rot = quorum.clone(); rot.rotate_left(1);
+                let mut rev = quorum.clone(); rev.reverse();
+                for ord in [rot, rev] { let got = guarded(|| Envelope::sskr_join(&ord)); c.check("quorum-any-order", matches!(&got, Ok(Ok(j)) if j.is_identical_to(&e)), "quorum-order-dependent", || "a tight quorum presented in another order did not join".into()); }
+            }
             // below quorum of each: error
             if flat.len() >= 1 && *gt * groups[0].0 > 1 {
                 let m2: Vec<&Envelope> = vec![&flat[0].2, &flat2[0]];
@@ -433,6 +470,9 @@ pub fn c17(c: &mut Ctx, b: &Budget) {
         import(c, &a1);
         c.check("unsalted-deterministic", bytes_of(&u1) == bytes_of(&u2), "unsalted-nondeterministic", || shape(&u1));
         c.check("salted-adds-differ", a1.digest() != a2.digest(), "salts-equal", || "salted adds equal".into());
+        // a salted add of an assertion the envelope already holds in plain form still adds the salted form
+        let sp = u2.add_assertion_salted(p.as_str(), o, true);
+        c.check("salted-after-plain-adds", sp.assertions().len() == u2.assertions().len() + 1 && sp.digest() != u2.digest(), "salted-after-plain-dropped", || format!("{} -> {}", shape(&u2), shape(&sp)));
         let found = a1.assertions_with_predicate(p.as_str());
         let fresh: Vec<&Envelope> = found.iter().filter(|x| !e.assertions().iter().any(|y| y.digest() == x.digest())).collect();
         c.check("salted-found-by-predicate", fresh.len() == 1, "salted-not-found", || shape(&a1));
@@ -485,7 +525,7 @@ pub fn c18(c: &mut Ctx, b: &Budget) {
         // request
         let id = ARID::from_data_ref(c.rng.bytes(32)).unwrap();
         let mut req = Request::new_with_body(ex.clone(), id);
-        let note = ["", "a note", "ünïcode"][i % 3];
+        let note = ["", "a note", "ünïcode", " ", "\t\n"][i % 5];
         if !note.is_empty() { req = req.with_note(note); }
         let date_kind = i % 4;
         let date = match date_kind { 0 => None, 1 => Some(dcbor::Date::from_timestamp(1_700_000_000.0 + i as f64)), 2 => Some(dcbor::Date::from_timestamp(-86_400.0 * (i as f64 + 1.0))), _ => Some(if i % 8 == 3 { dcbor::Date::from_timestamp(1_700_000_000.5 + i as f64 * 0.125) } else { dcbor::Date::from_string(format!("2024-07-04T11:11:{:02}.{}Z", i % 60, ["1", "123456789", "000001"][i % 3])).unwrap() }) };
@@ -629,6 +669,17 @@ pub fn c19(c: &mut Ctx, b: &Budget) {
             c.check("check-type-iff-added", chk == Ok(want), "check-type", || shape(t));
             if let Some(kv) = t.as_known_value() { let got = guarded(|| te.has_type(kv)); c.check("has-type-iff-added", got == Ok(want), "has-type", || shape(t)); }
         }
+        // a type object that is a known value carrying an assertion is not the bare known value
+        let decorated_type = Envelope::new(known_values::SEED_TYPE).add_assertion("schemaVersion", 2);
+        let td = base_t.add_type(decorated_type.clone());
+        if !mine.iter().any(|x| x.digest() == Envelope::new(known_values::SEED_TYPE).digest()) {
+            let got = guarded(|| td.has_type(&known_values::SEED_TYPE));
+            c.check("has-type-iff-added", got == Ok(false), "has-type-ignores-type-assertions", || format!("has_type(Seed) = {:?} although only a decorated Seed type object was added", got));
+            let got = guarded(|| td.check_type(&known_values::SEED_TYPE).is_ok());
+            c.check("check-type-iff-added", got == Ok(false), "has-type-ignores-type-assertions", || "check_type".into());
+        }
+        let got = guarded(|| td.has_type_envelope(decorated_type.clone()));
+        c.check("has-type-iff-added", got == Ok(true), "has-type", || "decorated type not found".into());
         let tys = guarded(|| te.types());
         if let Ok(tys) = tys { let distinct: HashSet<_> = tys.iter().map(|t| t.digest().into_owned()).collect(); c.check("types-exact", distinct.len() == mine.len(), "types-exact", || format!("{} vs {}", distinct.len(), mine.len())); }
         let gt = guarded(|| te.get_type());
